@@ -30,6 +30,11 @@ pub struct VerReq {
     /// None = no VER tag at all
     pub vers: Option<Vec<u32>>,
     pub srv: Srv,
+    /// 0 = the usual layout. 1 = the request also carries a (meaningless) 64-byte SIG field, which sorts in front of
+    /// VER; 2 = a framed message with ZERO tags padded to the usual size (names no version, carries no nonce: never
+    /// answered, whatever was received before it); 3 = a zero-tag message without padding
+    #[serde(default)]
+    pub shape: u8,
 }
 
 #[derive(Debug, Clone, Serialize, Deserialize)]
@@ -51,7 +56,18 @@ fn chunk_seed(k: u8) -> Vec<u8> {
 
 fn build(v: &VerReq, k: usize, server_srv: &[u8]) -> Vec<u8> {
     let nonce = sha512(&[b"c12", &(k as u32).to_le_bytes()])[..32].to_vec();
+    if v.shape % 4 >= 2 {
+        // num_tags = 0 followed by nothing but padding
+        let payload = if v.shape % 4 == 2 { vec![0u8; 1012] } else { vec![0u8; 4] };
+        let mut f = rc::MAGIC.to_vec();
+        f.extend_from_slice(&(payload.len() as u32).to_le_bytes());
+        f.extend_from_slice(&payload);
+        return f;
+    }
     let mut m = Msg::new();
+    if v.shape % 4 == 1 {
+        m.fields.push((rc::SIG, vec![0x51u8; 64]));
+    }
     if let Some(list) = &v.vers {
         m.fields.push((rc::VER, list.iter().flat_map(|x| x.to_le_bytes()).collect()));
     }
@@ -98,11 +114,12 @@ fn check_chunk(ctx: &mut Ctx, c: &Chunk) -> Res {
     for (k, v) in c.reqs.iter().enumerate() {
         ctx.eval();
         let replies = &res.replies[k];
-        let list = v.vers.clone().unwrap_or_default();
+        let zero_tags = v.shape % 4 >= 2;
+        let list = if zero_tags { vec![] } else { v.vers.clone().unwrap_or_default() };
         let contains = list.contains(&VER_DRAFT13);
         let first4 = list.iter().take(4).any(|x| *x == VER_DRAFT13);
         let srv_ok = matches!(v.srv, Srv::Absent | Srv::Correct) || matches!(v.srv, Srv::Len(32));
-        let desc = || format!("VER {:x?} SRV {:?}", v.vers, v.srv);
+        let desc = || if zero_tags { "a framed message with zero tags".to_string() } else { format!("VER {:x?} SRV {:?}{}", v.vers, v.srv, if v.shape % 4 == 1 { " (+ leading SIG field)" } else { "" }) };
         if replies.len() > 1 {
             return ctx.fail("more-than-one-reply", format!("{} replies to one request ({})", replies.len(), desc()));
         }
@@ -151,7 +168,7 @@ fn check_chunk(ctx: &mut Ctx, c: &Chunk) -> Res {
 fn table(max_len: usize) -> Vec<VerReq> {
     let mut out = vec![];
     for srv in [Srv::Absent, Srv::Correct, Srv::Wrong] {
-        out.push(VerReq { vers: None, srv: srv.clone() });
+        out.push(VerReq { vers: None, srv: srv.clone(), shape: 0 });
         for len in 0..=max_len {
             let total = 5usize.pow(len as u32);
             for mut i in 0..total {
@@ -160,17 +177,35 @@ fn table(max_len: usize) -> Vec<VerReq> {
                     l.push(VALUES[i % 5]);
                     i /= 5;
                 }
-                out.push(VerReq { vers: Some(l), srv: srv.clone() });
+                out.push(VerReq { vers: Some(l), srv: srv.clone(), shape: 0 });
             }
         }
     }
     for b in 0..256u16 {
-        out.push(VerReq { vers: Some(vec![VER_DRAFT13]), srv: Srv::BitFlip(b) });
+        out.push(VerReq { vers: Some(vec![VER_DRAFT13]), srv: Srv::BitFlip(b), shape: (b % 2) as u8 });
     }
     for l in [0u8, 4, 28, 36, 64] {
-        out.push(VerReq { vers: Some(vec![VER_DRAFT13]), srv: Srv::Len(l) });
+        out.push(VerReq { vers: Some(vec![VER_DRAFT13]), srv: Srv::Len(l), shape: 0 });
     }
-    out.push(VerReq { vers: Some(vec![VER_DRAFT13]), srv: Srv::OtherServer });
+    out.push(VerReq { vers: Some(vec![VER_DRAFT13]), srv: Srv::OtherServer, shape: 0 });
+    // the same decisions for requests that carry a leading SIG field (every list of length <= 3), and zero-tag messages
+    // right after an answerable request
+    for srv in [Srv::Absent, Srv::Correct, Srv::Wrong, Srv::OtherServer, Srv::Len(0), Srv::Len(36)] {
+        for len in 0..=3usize {
+            for mut i in 0..5usize.pow(len as u32) {
+                let mut l = Vec::with_capacity(len);
+                for _ in 0..len {
+                    l.push(VALUES[i % 5]);
+                    i /= 5;
+                }
+                out.push(VerReq { vers: Some(l), srv: srv.clone(), shape: 1 });
+            }
+        }
+        out.push(VerReq { vers: Some(vec![VER_DRAFT13]), srv: Srv::Correct, shape: 0 });
+        out.push(VerReq { vers: None, srv: Srv::Absent, shape: 2 });
+        out.push(VerReq { vers: Some(vec![VER_DRAFT13]), srv: Srv::Absent, shape: 0 });
+        out.push(VerReq { vers: None, srv: Srv::Absent, shape: 3 });
+    }
     out
 }
 
@@ -181,11 +216,11 @@ fn sequence() -> impl proptest::strategy::Strategy<Value = Chunk> {
     let list = proptest::collection::vec(val.clone(), 0..=6);
     let srv = prop_oneof![4 => Just(Srv::Absent), 2 => Just(Srv::Correct), 1 => Just(Srv::Wrong), 1 => any::<u16>().prop_map(Srv::BitFlip), 1 => prop::sample::select(vec![0u8, 4, 28, 31, 33, 36, 64]).prop_map(Srv::Len)];
     // op: 0 fresh list, 1 previous + suffix, 2 prefix of previous, 3 previous repeated, 4 previous with draft-13 inserted
-    let step = (0u8..5, list, proptest::collection::vec(val, 1..=3), any::<u8>(), srv);
+    let step = (0u8..5, list, proptest::collection::vec(val, 1..=3), any::<u8>(), srv, prop_oneof![6 => Just(0u8), 2 => Just(1u8), 1 => Just(2u8), 1 => Just(3u8)]);
     (proptest::collection::vec(step, 2..=24), prop_oneof![1 => Just(0u8), 2 => any::<u8>()]).prop_map(|(steps, seed_k)| {
         let mut reqs: Vec<VerReq> = vec![];
         let mut prev: Vec<u32> = vec![];
-        for (op, fresh, suffix, cut, srv) in steps {
+        for (op, fresh, suffix, cut, srv, shape) in steps {
             let mut l = match op {
                 0 => fresh,
                 1 => {
@@ -204,7 +239,7 @@ fn sequence() -> impl proptest::strategy::Strategy<Value = Chunk> {
             };
             l.truncate(8);
             prev = l.clone();
-            reqs.push(VerReq { vers: Some(l), srv });
+            reqs.push(VerReq { vers: Some(l), srv, shape });
         }
         Chunk { reqs, seed_k }
     })
